@@ -335,6 +335,9 @@ fn run_server(trace: &[TMsg], streams_in: &[StreamSpec], early_wait: usize, sche
     if one_pass {
         ctx.probe("one_pass_sessions");
     }
+    if msgs.len() >= 8000 {
+        ctx.probe("long_log_sessions");
+    }
     let streams = &streams_v[..];
     // the lookups' own notion of a message's time: start of its lifecycle + timestamp (final table)
     let m_time: Vec<u64> = if streams.iter().any(|s| !s.time_lookups.is_empty()) {
@@ -842,6 +845,6 @@ impl Check for C16 {
         vec!["connection loop replica (H2)", "in-memory transport, simulated clock", "client + model"]
     }
     fn required_reach() -> Vec<&'static str> {
-        vec!["library_level_runs", "server_level_runs", "window_changed_between_calls", "window_changes_checked", "searches_checked", "lookups_checked", "time_lookups_checked", "sorted_sessions", "sorted_sessions_order_differs_from_file", "one_pass_sessions", "stream_messages_compared"]
+        vec!["library_level_runs", "server_level_runs", "window_changed_between_calls", "window_changes_checked", "searches_checked", "lookups_checked", "time_lookups_checked", "sorted_sessions", "sorted_sessions_order_differs_from_file", "one_pass_sessions", "long_log_sessions", "stream_messages_compared"]
     }
 }
